@@ -735,17 +735,13 @@ for adj in row_it: graph.get_successor_nodes_by_index(&v)
                 forall|it: FringeNode| #[trigger] heap_view(&fringe).count(it) > 0 ==> item_ok(*graph, weighted, source, hist, it),
                 chain_ok(*graph, weighted, source, hist),
                 forall|u: int| reported(dist@, u) ==> hist.contains((u as usize, #[trigger] dist@[u])),
-                forall|j: int| 0 <= j < hist.len() ==> (#[trigger] hist[j]).0 < dist@.len() && (feq(hist[j].1, f64_max()) || dist@[hist[j].0 as int] == hist[j].1),
-                forall|i: int, j: int| #[trigger] hpair(i, j) ==> (0 <= i < j < hist.len() && hist[i].0 == hist[j].0 ==> feq(hist[i].1, f64_max())),
                 forall|it: FringeNode| #[trigger] heap_view(&fringe).count(it) > 0 ==> (it.node_index == source && fneg(it.distance) == 0.0f64) || within_cutoff(cutoff, fneg(it.distance)),
-                forall|j: int| 0 <= j < hist.len() ==> ((#[trigger] hist[j]).0 == source && hist[j].1 == 0.0f64) || within_cutoff(cutoff, hist[j].1),
 //@ if main
                 hv == heap_view(&fringe),
                 full == (cutoff.is_none() && target.is_none()),
                 done.contains(v),
                 full ==> forall|w: int| 0 <= w < graph.n() ==> #[trigger] seen@[w] == f64_max() || done.contains(w as usize) || in_heap(heap_view(&fringe), w as usize),
                 forall|w: int| 0 <= w < graph.n() && !feq(#[trigger] dist@[w], f64_max()) ==> done.contains(w as usize),
-                forall|w: usize| #[trigger] done.contains(w) ==> w < graph.n() && exists|d: f64| #[trigger] hist.contains((w, d)) && (feq(d, f64_max()) || dist@[w as int] == d),
                 full ==> closed_upto(*graph, weighted, hist, done, heap_view(&fringe), v as int, row_it.index@ as int),
                 full ==> done.contains(source) || in_heap(heap_view(&fringe), source),
                 forall|w: usize| #[trigger] done.contains(w) ==> !feq(dist@[w as int], f64_max()),
